@@ -267,7 +267,9 @@ int lha_input_stream_skip(LHAInputStream *stream, size_t bytes)
 
 			result = do_read(stream, data, len);
 
-			if (result < 0) {
+			// End of input (or error) before all bytes were skipped?
+
+			if (result <= 0) {
 				return 0;
 			}
 
